@@ -558,6 +558,43 @@ pub fn micro_scenarios() -> Vec<Scenario> {
             instant: false,
             horizon: 12,
         },
+        // periods of a second and more (whole seconds, and a second plus a fraction): the reason reports the whole period
+        Scenario {
+            timers: vec![t(K::Exit, 1250, Via::Derived), t(K::After, 1000, Via::Ref), t(K::Interval, 1000, Via::Cell)],
+            in_pre_start: vec![],
+            clients: vec![vec![Create(0), Create(1), Create(2), Join(1), Join(0), Join(2)]],
+            post_stop_yield: false,
+            post_stop_sleep: 0,
+            instant: false,
+            horizon: 2400,
+        },
+        Scenario {
+            timers: vec![t(K::Exit, 1000, Via::Cell), t(K::Kill, 2000, Via::Ref), tsub(K::After, 999, Via::Cell, 999)],
+            in_pre_start: vec![],
+            clients: vec![vec![Create(0), Create(1), Create(2), Join(2), Join(0), Join(1)]],
+            post_stop_yield: true,
+            post_stop_sleep: 0,
+            instant: false,
+            horizon: 2100,
+        },
+        Scenario {
+            timers: vec![t(K::Kill, 1000, Via::Derived), t(K::Exit, 61_001, Via::Ref)],
+            in_pre_start: vec![1],
+            clients: vec![vec![Sleep(2), Create(0), Join(0), Join(1)]],
+            post_stop_yield: false,
+            post_stop_sleep: 0,
+            instant: false,
+            horizon: 1100,
+        },
+        Scenario {
+            timers: vec![t(K::Exit, 61_001, Via::Ref)],
+            in_pre_start: vec![0],
+            clients: vec![vec![Sleep(61_000), Finished(0), Join(0)]],
+            post_stop_yield: false,
+            post_stop_sleep: 0,
+            instant: false,
+            horizon: 61_100,
+        },
         // timers the actor arms on itself in pre_start
         Scenario {
             timers: vec![t(K::Interval, 5, Via::Ref), t(K::After, 5, Via::Ref), t(K::Exit, 10, Via::Ref), t(K::Kill, 10, Via::Ref)],
@@ -691,8 +728,16 @@ pub fn batch_instant(out: &str, tier: &str, seed: u64) -> Value {
 
 pub fn rand_scenario(rng: &mut Rng) -> Scenario {
     let fast = rng.chance(1, 3);
-    let periods: &[u64] = if fast { &[0, 1, 1, 5] } else { &[0, 1, 5, 5, 50, 50] };
-    let times: &[u64] = if fast { &[0, 1, 2, 4, 5, 6] } else { &[0, 1, 4, 5, 6, 10, 45, 49, 50, 51, 55, 100] };
+    // one scenario in ten works with periods around and above one second
+    let long = !fast && rng.chance(1, 7);
+    let periods: &[u64] = if fast { &[0, 1, 1, 5] } else if long { &[999, 1000, 1000, 1250, 2000] } else { &[0, 1, 5, 5, 50, 50] };
+    let times: &[u64] = if fast {
+        &[0, 1, 2, 4, 5, 6]
+    } else if long {
+        &[0, 5, 999, 1000, 1001, 1250, 1999, 2000, 2500]
+    } else {
+        &[0, 1, 4, 5, 6, 10, 45, 49, 50, 51, 55, 100]
+    };
     let nt = 1 + rng.below(4);
     let mut timers = vec![];
     for _ in 0..nt {
@@ -789,7 +834,7 @@ pub fn rand_scenario(rng: &mut Rng) -> Scenario {
         c.push(if rng.chance(1, 2) { COp::Stall(d) } else { COp::SendStall(d) });
         clients.push(c);
     }
-    let horizon = if fast { 13 } else { 133 };
+    let horizon = if fast { 13 } else if long { 4133 } else { 133 };
     Scenario { timers, in_pre_start, clients, post_stop_yield: rng.chance(1, 2), post_stop_sleep: [0, 0, 0, 2, 6][rng.below(5)], instant: false, horizon }
 }
 
